@@ -895,6 +895,74 @@ def gen_contract(rng, name="T", ntests=3, pool=(), with_helper=None, bytes_sizes
                      dyn_sizes={"bytes": g.bytes_sizes, "uint256[]": g.array_sizes})
 
 
+@dataclass
+class ValueCheck(Check):
+    """a value-bearing CALL to a callee deployed by setUp (always reverting / accepting / reverting iff the value is odd) whose
+    failure is swallowed, followed by an assertion on balances that holds only with (or only without) the refund of the value"""
+    items: list = field(default_factory=list)
+
+    def body(self) -> list:
+        return list(self.prologue) + list(self.items) + ["STOP"]
+
+
+VALUE_CALLEES = {
+    "revert": "PUSH0 PUSH0 REVERT",
+    "accept": "STOP",
+    "odd-reverts": "CALLVALUE PUSH1 0x01 AND PUSH @r JUMPI STOP r: PUSH0 PUSH0 REVERT",
+    "invalid": "INVALID",
+}
+VALUE_RELATIONS = ["self-minus-v", "self-same", "callee-eq-v", "callee-zero"]
+
+
+def gen_value_contract(rng, name="Val", variants=None) -> Generated:
+    """setUp CREATEs the callees; every test: v = x & 0xffff; before = balance(this); callee.call{value: v}(""); assert(relation)"""
+    kinds = sorted(VALUE_CALLEES)
+    others, setup, blobs, addr = [], [], [], {}
+    for k, kind in enumerate(kinds):
+        rt = asm.assemble_text(VALUE_CALLEES[kind])
+        d = TestContract(f"{name}Callee{k}", [], runtime_override=rt, file=f"{name}Callee{k}.sol")
+        others.append(d)
+        blob = asm.creation_code(rt)
+        lab = asm.fresh("vblob")
+        blobs += [("mark", lab), ("raw", blob)]
+        setup += [("push", len(blob)), ("ref", lab), ("push", 0), "CODECOPY", ("push", len(blob)), ("push", 0), ("push", 0), "CREATE", "POP"]
+        addr[kind] = FIRST_CREATED + k
+    variants = variants or [(rng.choice(kinds), rng.choice(VALUE_RELATIONS)) for _ in range(3)]
+    checks = []
+    for t, (kind, rel) in enumerate(variants):
+        a = addr[kind]
+        v = asm.calldata_arg(0) + [("push", 0xFFFF), "AND"]
+        call = [0, 0, 0, 0] + v + [("push", a, 20), "GAS", "CALL", "POP"]
+        if rel == "self-minus-v":
+            holds = ["SELFBALANCE"] + call + v + ["SWAP1", "SUB", "SELFBALANCE", "EQ"]
+        elif rel == "self-same":
+            holds = ["SELFBALANCE"] + call + ["SELFBALANCE", "EQ"]
+        elif rel == "callee-eq-v":
+            holds = call + v + [("push", a, 20), "BALANCE", "EQ"]
+        else:
+            holds = call + [("push", a, 20), "BALANCE", "ISZERO"]
+        kindf = rng.choice(["panic", "panic", "flag", "assertTrue"])
+        if kindf == "assertTrue":
+            items = vm_call("assertTrue", [holds])
+        else:
+            items = asm.if_then(holds + ["ISZERO"], asm.panic(1) if kindf == "panic" else asm.set_fail_flag() + ["STOP"])
+
+        def accepted(val, kind=kind):
+            return kind == "accept" or (kind == "odd-reverts" and val % 2 == 0)
+
+        def ok(val, rel=rel):
+            acc = accepted(val)
+            return val == 0 or (acc if rel in ("self-minus-v", "callee-eq-v") else not acc)
+
+        bad = next((val for val in (1, 2, 3) if not ok(val)), None)
+        wit = [bad + rng.choice([0, 1 << 16, 1 << 200])] if bad is not None else None
+        atoms = [Bin("EQ", Bin("AND", Arg(0), Const(0xFFFF)), Const(bad if bad is not None else 1))]
+        checks.append(ValueCheck(f"check_{t}_value_{'r' if bad is not None else 'u'}", [Param("uint256", "x")], atoms, kindf, 1,
+                                 bad is not None, wit, None, "and", f"value-call:{kind}:{rel}", True, [], None, items))
+    fns = [Fn("setUp()", setup + ["STOP"] + blobs)] + [Fn(c.named, c.body()) for c in checks]
+    return Generated(TestContract(name, fns), checks, {}, others, dyn_sizes={"bytes": DEFAULT_BYTES_SIZES, "uint256[]": DEFAULT_ARRAY_SIZES})
+
+
 # ------------------------------------------------------------------------------------------------ inputs to try
 
 
